@@ -20,6 +20,7 @@ from pyvc.values import *  # noqa
 from pyvc import interp as I
 from . import quant as Q
 from .quant import P, R, clipz
+from pyvc.lib import SQRT as L_SQRT
 
 PROP = "C08"
 ASSUME = ["A4 tf.random.uniform is uniform on [minval, maxval): P(u <= t) = t (used only for `unbiased`)",
@@ -222,6 +223,64 @@ def po2_sr_scenario():
   return scenario
 
 
+def po2_phase1(cls, quadratic):
+  """quantized_po2 / quantized_relu_po2 with stochastic rounding in the training phase, checked against the CONTRACT of
+  stochastic_round_po2 (callee replaced by its contract: for a > 0 it returns an integer exponent e adjacent to a:
+  2^e <= a < 2^(e+1) or 2^(e-1) < a <= 2^e).  The code set with quadratic_approximation is the even exponents."""
+  def scenario(ip):
+    s = Scen()
+    bits = z3.Int("bits")
+    s.vars["bits"] = bits
+    sg = 1 if cls == "quantized_po2" else 0
+    ip.assume(bits - sg >= 2)
+    x = Q.tensor("x")
+    s.vars["x"] = x.e
+    args = []
+
+    def sr_contract(ip_, fv, a, k):
+      av = Q.num_value(a[0])
+      e = z3.Int("sr_exp%d" % len(args))            # every call draws independently
+      s.vars["sr_exp%d" % len(args)] = e
+      ip_.assume(z3.Implies(av > 0, z3.Or(z3.And(P(e) <= av, av < P(e + 1)), z3.And(P(e - 1) < av, av <= P(e)))))
+      args.append(av)
+      return SNum(z3.ToReal(e), "tensor")
+    ip.overrides["qkeras.quantizers::stochastic_round_po2"] = sr_contract
+    q = ip.call(Q.qcls(ip, cls), [SNum(bits)], {"quadratic_approximation": quadratic, "use_stochastic_rounding": True})
+    s.replay = {"class": cls, "bits": bits, "quadratic": quadratic, "phase": 1}
+    r = Q.call(ip, q, x)
+    s.claim("no_raise", r[0] == "return")
+    if r[0] != "return":
+      s.info["raised"] = str(r[1])
+      return s
+    ret = Q.value(r)
+    s.claim("callee_used", len(args) >= 1)
+    if len(args) < 1:
+      return s
+    a = args[0]                                   # the call for the magnitude of a positive input
+    e = s.vars["sr_exp0"]
+    ax = z3.If(x.e >= 0, x.e, -x.e)
+    eff = bits - sg - 1
+    emin, emax = -I.IPOW2(eff), I.IPOW2(eff) - 1
+    if quadratic:
+      emax = emax - 1                             # _get_min_max_exponents: largest even exponent index 2*(max_exp // 2), eff >= 1
+    s.hints.extend([eff, e, e + 1, e - 1, 2 * e, 2 * e + 2, 2 * e - 2])
+    qf = 2 if quadratic else 1
+    # inputs above the epsilon floor whose drawn exponent is inside the exponent field (no clipping)
+    inside = z3.And(ax >= zreal(1e-3), emin <= e, e <= emax, x.e > 0)
+    # the operand handed to the callee is the clipped magnitude (its square root with the quadratic approximation)
+    if quadratic:
+      s.claim("callee_operand", z3.Implies(inside, z3.And(a >= 0, a == L_SQRT(ax))))
+      ip.assume(z3.Implies(ax >= 0, z3.And(L_SQRT(ax) * L_SQRT(ax) == ax, L_SQRT(ax) >= 0)))
+    else:
+      s.claim("callee_operand", z3.Implies(inside, a == ax))
+    rabs = z3.If(ret >= 0, ret, -ret)
+    s.claim("code_from_drawn_exponent", z3.Implies(inside, rabs == P(qf * e)))
+    if not quadratic:
+      s.claim("adjacent", z3.Implies(inside, z3.Or(z3.And(rabs <= ax, ax < 2 * rabs), z3.And(rabs < 2 * ax, ax <= rabs))))
+    return s
+  return scenario
+
+
 def bounds(vars_):
   return [v <= 5 for k, v in vars_.items() if k in ("bits", "integer")]
 
@@ -239,6 +298,11 @@ def cases(tier):
     out.append(Case(PROP, Q.QF + cls + ".__call__", "phase0", quantizer_phase0(cls), bounds=bounds,
                     replay_kind="c08", assumptions=ASSUME + ["tf.round rounds ties to even (modelled exactly here)"],
                     setup=phase(0), lo=-130 if "po2" in cls else -12, hi=130 if "po2" in cls else 12, precise_ties=True))
+  for cls in ("quantized_po2", "quantized_relu_po2"):
+    for quad in (False, True):
+      out.append(Case(PROP, Q.QF + cls + ".__call__", "phase1_quadratic%d" % quad, po2_phase1(cls, quad), bounds=bounds,
+                      replay_kind="c08_po2", assumptions=ASSUME + ["contract of stochastic_round_po2 (adjacent integer exponent) assumed at its call site"],
+                      setup=phase(1), lo=-130, hi=130))
   for cls in ("stochastic_binary", "stochastic_ternary"):
     out.append(Case(PROP, Q.QF + cls + ".__call__", "phase0", stoch_class_phase0(cls), bounds=bounds,
                     replay_kind="c08", assumptions=ASSUME, setup=phase(0)))
